@@ -172,6 +172,44 @@ fn gen_conn_random(rng: &mut Rng, len: usize) -> String {
     format!("conn {} {}", wc, ops.join(";"))
 }
 
+/// `h` submissions before the server answers anything (request k travels on stream k), a few cancellations, then
+/// every frame answered in reverse or random order, then a second wave that reuses the freed ids.
+fn gen_conn_many(rng: &mut Rng, h: usize, reverse: bool, gated: bool) -> String {
+    let mut ops: Vec<String> = Vec::with_capacity(2 * h + 40);
+    if gated {
+        ops.push("g".into()); // everything after the first request piles up in the submit channel (h <= 1000)
+    }
+    for k in 0..h {
+        ops.push(if k > 0 && rng.chance(1, 50) { "S".into() } else { "s".into() });
+    }
+    if gated {
+        ops.push("G".into());
+    }
+    for _ in 0..rng.range(0, 6) {
+        ops.push(format!("c{}", rng.below(h as u64)));
+    }
+    // the boundary ids first or last, depending on the order
+    let mut remaining = h;
+    let answer_all = rng.chance(2, 3);
+    let stop_at = if answer_all { 0 } else { rng.below(h as u64 / 2) as usize };
+    while remaining > stop_at {
+        let j = if reverse { remaining - 1 } else { rng.below(remaining as u64) as usize };
+        ops.push(format!("r{}", j));
+        remaining -= 1;
+    }
+    let wave = rng.range(2, 12) as usize;
+    for _ in 0..wave {
+        ops.push("s".into());
+    }
+    for _ in 0..wave {
+        ops.push(format!("r{}", remaining));
+    }
+    if rng.chance(1, 3) {
+        ops.push("x".into());
+    }
+    format!("conn {} {}", rng.below(2), ops.join(";"))
+}
+
 pub fn generate(rng: &mut Rng, tier: Tier, emit: &mut dyn FnMut(String)) {
     let quick = tier == Tier::Quick;
     // hook level: exhaustive over 3 request ids / 3 stream ids
@@ -208,6 +246,20 @@ pub fn generate(rng: &mut Rng, tier: Tier, emit: &mut dyn FnMut(String)) {
     gen_exhaustive(&calpha2, if quick { 6 } else { 7 }, "conn 1", emit);
     // all schedules that start with two submissions (so that answers can be out of order)
     gen_exhaustive(&calpha, if quick { 3 } else { 4 }, "conn 1 s;s", emit);
+    // many requests in flight before the server answers anything: the highest stream id in flight crosses the
+    // byte boundaries 255/256/257, 511/512/513, 1023/1024/1025 (stream-id bytes of the request frame header)
+    for (i, h) in [300usize, 256, 257, 258, 512, 513, 514, 1024, 1025, 1026, 1030].into_iter().enumerate() {
+        emit(gen_conn_many(rng, h, i % 2 == 0, false));
+    }
+    emit(gen_conn_many(rng, 300, true, true));
+    emit(gen_conn_many(rng, 513, false, true));
+    if !quick {
+        for _ in 0..40 {
+            let h = *rng.pick(&[255usize, 256, 257, 258, 300, 511, 512, 513, 514, 700, 1023, 1024, 1025, 1026, 2049]);
+            let (rev, gated) = (rng.bool(), h <= 1000 && rng.chance(1, 3));
+            emit(gen_conn_many(rng, h, rev, gated));
+        }
+    }
     if !quick {
         // end-to-end exhaustion: 32768 requests in flight, the next two get UnableToAllocStreamId, one answer
         // frees one id, the next request gets exactly that id; then FIN
